@@ -163,7 +163,57 @@ fn exec_e3(j: &J) -> Result<RunOut, String> {
     Ok(out)
 }
 
+/// prefix-monotonicity of the shipped binary at replication counts the simulator cannot afford:
+/// the same arguments with k1 < k2 replications (around and beyond the default of 100); the
+/// larger run must not score lower
+fn exec_e4_pair(j: &J) -> Result<RunOut, String> {
+    let mut sc = CliScenario::from_json(j)?;
+    let k1 = j.get("k1").and_then(|x| x.as_u64()).ok_or("k1")?;
+    let k2 = j.get("k2").and_then(|x| x.as_u64()).ok_or("k2")?;
+    let mut out = RunOut::default();
+    out.nontrivial = true;
+    out.sim_steps = 2;
+    out.count("probe.cli_prefix_pairs(replications up to 200)", 1);
+    let mut h = Hasher64::new();
+    let mut scores: Vec<f64> = vec![];
+    for k in [k1, k2] {
+        sc.replications = Some(k);
+        let r = cliproc::run_cli(&sc)?;
+        h.u64(r.hash());
+        if r.code != Some(0) {
+            out.count("probe.cli_run_failed", 1);
+            out.hash = h.finish();
+            return Ok(out);
+        }
+        match r.final_score_text.as_ref().and_then(|t| t.parse::<f64>().ok()) {
+            Some(x) => scores.push(x),
+            None => {
+                out.violate(Violation::new("logged-score-missing", k, format!("{} replications: no parsable 'Final score' line: {:?}", k, r.final_score_text)));
+                out.hash = h.finish();
+                return Ok(out);
+            }
+        }
+    }
+    out.hash = h.finish();
+    if scores[1] < scores[0] && !rel_close(scores[1], scores[0]) {
+        out.violate(Violation::new(
+            "score-decreased-with-more-replications",
+            k2,
+            format!("the shipped binary scored {:e} with {} replications and {:e} with {} (same other arguments)", scores[0], k1, scores[1], k2),
+        ));
+    }
+    Ok(out)
+}
+
 fn gen_e4(rng: &mut Rng) -> J {
+    if rng.chance(0.05) {
+        let mut sc = cliproc::gen_valid(rng);
+        sc.steps = Some(*rng.pick(&[1u64, 20]));
+        sc.convergence = None;
+        sc.verbosity = 0;
+        let (k1, k2) = *rng.pick(&[(100u64, 101u64), (100, 120), (64, 128), (99, 200), (7, 100)]);
+        return sc.to_json().set("mode", J::str("prefix-pair")).set("k1", J::uint(k1)).set("k2", J::uint(k2));
+    }
     let mut sc = cliproc::gen_valid(rng);
     sc.replications = Some(*rng.pick(&[1u64, 2, 5]));
     sc.steps = Some(*rng.pick(&[1u64, 20, 100]));
@@ -313,7 +363,7 @@ impl Check for C10 {
         "C10"
     }
     fn rule(&self) -> String {
-        "scenario i even (e3-replicas): group x shape x potential x settings, K = 2..8 (quick) / 2..12 (thorough); each replica index is run alone through the real analyse_state (single-index delivery) to obtain its score, then k = 1..K replications are run, each under a fresh seeded schedule / worker count / reduction-tree shape, and the written file is reloaded and scored. Scenario i odd (e4-cliproc): one execution of the shipped binary for a group x shape x potential x replications {1,2,5} from the swarm; labels, family, shape parameters, number of copies and the logged final score are compared with the request. All from splitmix(VERIF_SEED,'C10',i). Non-trivial: (e3) K >= 2 and some run had >= 2 active workers; (e4) any execution. Distinct: hash of outputs.".into()
+        "scenario i even (e3-replicas): group x shape x potential x settings, K = 2..8 (quick) / 2..12 (thorough); each replica index is run alone through the real analyse_state (single-index delivery) to obtain its score, then k = 1..K replications are run, each under a fresh seeded schedule / worker count / reduction-tree shape, and the written file is reloaded and scored. Scenario i odd (e4-cliproc): one execution of the shipped binary for a group x shape x potential x replications {1,2,5} from the swarm; labels, family, shape parameters, number of copies and the logged final score are compared with the request; 5 % of these scenarios instead run the binary twice with k1 < k2 replications (up to 200) and require the larger run not to score lower. All from splitmix(VERIF_SEED,'C10',i). Non-trivial: (e3) K >= 2 and some run had >= 2 active workers; (e4) any execution. Distinct: hash of outputs.".into()
     }
     fn runs(&self, tier: Tier) -> u64 {
         match tier {
@@ -455,6 +505,7 @@ impl C10 {
     fn execute_inner(&self, j: &J) -> Result<RunOut, String> {
         match j.get("mode").and_then(|m| m.as_str()) {
             Some("labels") => exec_e4(j),
+            Some("prefix-pair") => exec_e4_pair(j),
             _ => exec_e3(j),
         }
     }
